@@ -285,6 +285,22 @@ theorem stepCheck_accepts_iff (cfg : Cfg) (hno : cfg.noOpt = false) (st : State)
     simp only [hov, hcap, hno, hv, ho, Bool.false_and, Bool.or_false, Bool.false_eq_true, if_false]
     exact ⟨_, _, _, rfl⟩
 
+/-- within the neighbour cap and with the optimality part on, an accepting verdict of the plain
+monitor always carries `capped = false` (optimality was judged) -/
+theorem stepCheck_cap_false {cfg : Cfg} (hno : cfg.noOpt = false) {st : State} {t : Int}
+    {dsts : List Pos} (hcap : cappedB cfg st t dsts = false) {labels : List Nat} {st' : State}
+    {c r b : Nat} {cap : Bool}
+    (h : stepCheck cfg st t dsts (some labels) = .ok st' c r b cap) : cap = false := by
+  unfold stepCheck at h
+  simp only [hcap, hno, Bool.or_false, Bool.false_eq_true, if_false] at h
+  split at h
+  · cases h
+  · split at h
+    · cases h
+    · split at h
+      · cases h
+      · cases h; rfl
+
 /-- the plain monitor rejects a raise when no sub-net is oversize (no numba cap, within the
 neighbour cap) -/
 theorem stepCheck_none_bad (cfg : Cfg) (hnc : cfg.numbaCap = false) (st : State) (t : Int)
